@@ -3,6 +3,9 @@
 Case (one line):  <gens>|<steps>
  gens  ::= gen (";" gen)*      gen ::= instr ("," instr)*        generator index = position; name `g<index>`
  instr ::= y<i>   observe the context, yield i            r<k>  ctx.record(M(k))
+           n<k>   observe the context, yield a falsy value: None / 0 / "" / () / False for k = 0..4 (item id 900+k)
+           R<k> / X   (leading positions) the source is a plain factory function that records M(k) / raises Boom when
+                  it is CALLED, before returning its async generator; elsewhere the same as r<k> / f
            o<v>   with ctx.scope("b<v>", A(v)):           O<v>  async with ctx.scope("B<v>", A(v)):
            u<v>   with ctx.updated(A(v)):                 c     close the innermost open block (rest closed at the end)
            s<g>   async for x in ctx.stream(gen_g): yield x      (only g > own index; otherwise a no-op)
@@ -14,6 +17,7 @@ Case (one line):  <gens>|<steps>
            m<s>g<g>             handle s = ctx.stream(gen_g)          n<s>  one __anext__
            c<s>                 await s.aclose()                      z<s>  drop the last reference (+ gc, finalisers run)
            p                    probe the context                     t<j>  start task j (copy of the current context)
+           k                    the task is cancelled once and catches the CancelledError (cancelling() stays > 0)
 Observation: one token per step: ok | bad | dead | <FP> | i<i>@<FP of the body at the yield> | stop | err:<Class>,
  followed by `+done:<label>:<own records>:<records merged over nested scopes>` for every completion callback fired
  in that step.  FP = <A value | dflt | MC>/<scope label | ->/<task-group owner | ->.
@@ -68,6 +72,9 @@ def types():
     return _T
 
 
+FALSY = [None, 0, "", (), False]
+
+
 class Boom(Exception):
     pass
 
@@ -94,7 +101,7 @@ def parse(case: str):
     steps = []
     for tok in steps_s.split():
         t, op = tok.split(":")
-        if not op or op[0] not in "awuxmnczpt" or (op[0] == "m" and len(op[1:].split("g")) != 2):
+        if not op or op[0] not in "awuxmnczptk" or (op[0] == "m" and len(op[1:].split("g")) != 2):
             raise ValueError(tok)
         steps.append((num(t), op))
     return gens, steps
@@ -134,6 +141,7 @@ class Run:
         self.consumer: dict[int, int] = {}
         self.known: set[int] = set()
         self.finished: set[int] = set()
+        self.falsy_fp = "-"
         self.tasks: dict[int, asyncio.Task] = {}
         try:
             from haiway.context.tasks import TaskGroupContext
@@ -211,7 +219,19 @@ class Run:
     def make_gen(self, g, gens):
         run = self
         ctx, A, M = self.ctx, self.A, self.M
-        instrs = gens[g]
+        instrs = list(gens[g])
+        call_time = []
+        while instrs and instrs[0][0] in "RX":
+            call_time.append(instrs.pop(0))
+
+        def factory(sid):
+            """a plain function returning the async generator: what it does, it does when it is called"""
+            for ins in call_time:
+                if ins[0] == "R":
+                    ctx.record(M(ks=(num(ins[1:]),)), merge=lambda l, r: M(ks=l.ks + r.ks))
+                else:
+                    raise Boom("factory")
+            return body(sid)
 
         async def body(sid):
             run.note_group(f"g{g}.{sid}")
@@ -221,7 +241,10 @@ class Run:
                     k, arg = ins[0], num(ins[1:])
                     if k == "y":
                         yield f"i{arg}@{run.fingerprint()}"
-                    elif k == "r":
+                    elif k == "n":
+                        run.falsy_fp = run.fingerprint()
+                        yield FALSY[arg % len(FALSY)]
+                    elif k in "rR":
                         ctx.record(M(ks=(arg,)), merge=lambda l, r: M(ks=l.ks + r.ks))
                     elif k == "o":
                         cm = ctx.scope(f"b{arg}", *([A(v=arg)] if arg else []), completion=run.completion())
@@ -247,7 +270,7 @@ class Run:
                         if arg > g and arg < len(gens):
                             async for item in ctx.stream(run.make_gen(arg, gens), f"{sid}.{arg}"):
                                 yield item
-                    elif k == "f":
+                    elif k in "fX":
                         raise Boom("body")
                     elif k == "F":
                         raise BaseBoom("body")
@@ -272,8 +295,8 @@ class Run:
                         e = e2
                 raise e
 
-        body.__name__ = f"g{g}"
-        return body
+        factory.__name__ = body.__name__ = f"g{g}"
+        return factory if call_time else body
 
     async def interp(self, tid, inbox, results):
         frames = []
@@ -343,7 +366,13 @@ class Run:
             if k == "n":
                 self.consumer.setdefault(s, tid)
                 try:
-                    return await it.__anext__()
+                    item = await it.__anext__()
+                    if isinstance(item, str) and item.startswith("i"):
+                        return item
+                    for idx, v in enumerate(FALSY):   # by identity / type: None, 0, "", (), False are five items
+                        if item is v or (type(item) is type(v) and item == v):
+                            return f"i{900 + idx}@{self.falsy_fp}"
+                    return f"i?{type(item).__name__}@-"
                 except StopAsyncIteration:
                     self.finished.add(s)
                     return "stop"
@@ -355,6 +384,13 @@ class Run:
             return "ok"
         if k == "p":
             return self.fingerprint()
+        if k == "k":
+            asyncio.current_task().cancel()
+            try:
+                await asyncio.sleep(0)
+            except asyncio.CancelledError:
+                pass    # handled: the task goes on (e.g. into its cleanup path); the request is not uncancelled
+            return "ok"
         if k == "t":
             j = num(arg)
             if j in self.tasks:
@@ -411,7 +447,9 @@ def gen_body(rng, self_idx, n_gens, size):
     out, depth = [], 0
     for _ in range(size):
         r = rng.random()
-        if r < 0.34:
+        if r < 0.06:
+            out.append(f"n{rng.randint(0, 4)}")
+        elif r < 0.34:
             out.append(f"y{rng.randint(1, 9)}")
         elif r < 0.46:
             out.append(f"r{rng.randint(1, 9)}")
@@ -437,8 +475,11 @@ def gen_gens(rng):
     gens = []
     for g in range(n):
         body = gen_body(rng, g, n, rng.randint(1, 7))
-        if rng.random() < 0.7 and sum(1 for i in body if i[0] == "y") < 2:
-            body = [f"y{rng.randint(1, 9)}"] + body + [f"y{rng.randint(1, 9)}"]
+        if rng.random() < 0.7 and sum(1 for i in body if i[0] in "yn") < 2:
+            body = [rng.choice([f"y{rng.randint(1, 9)}", f"y{rng.randint(1, 9)}", f"n{rng.randint(0, 4)}"])] \
+                + body + [f"y{rng.randint(1, 9)}"]
+        if rng.random() < 0.12:   # a factory source: does something when it is called
+            body = [rng.choice([f"R{rng.randint(1, 9)}", f"R{rng.randint(1, 9)}", "X"])] + body
         gens.append(body)
     return gens
 
@@ -512,6 +553,8 @@ class _Sim:
             self.status[s] = "gone"
         elif r < 0.75 and len(self.depth) < 3:
             self.spawn(t)
+        elif r < 0.765:
+            self.emit(t, "k")
         elif r < 0.78:
             # deliberately ill-formed: unknown handle / foreign consumer / dead task / unbalanced leave
             self.emit(rng.choice([t, 7]), rng.choice(["n9", "c9", "z9", "x", f"t{t}", "m0g0", "n0", "c0"]))
@@ -625,6 +668,8 @@ def gen_scenario(rng, place=None, mode=None) -> str:
         sim.leave(0)
         sim.enter(0, rng.choice(["a", "w"]))
     sim.emit(t, "p")
+    if rng.random() < 0.12:
+        sim.emit(t, "k")     # the consumer handled a cancellation before it starts draining
     n_items = rng.randint(1, 3)
     if mode in ("full", "full-then-more"):
         for _ in range(rng.randint(3, 8)):
@@ -732,7 +777,9 @@ class _Body:
             k, arg = ins[0], num(ins[1:])
             if k == "y":
                 ev.append(("yield", arg))
-            elif k == "r":
+            elif k == "n":
+                ev.append(("yield", 900 + arg % len(FALSY)))
+            elif k in "rR":
                 ev.append(("rec", arg))
             elif k in "oOu":
                 stack.append(k)
@@ -743,7 +790,7 @@ class _Body:
             elif k == "s":
                 if g < arg < len(gens):
                     ev.append(("sub", arg))
-            elif k == "f":
+            elif k in "fX":
                 ev.append(("raise", "Boom"))
             elif k == "F":
                 ev.append(("raise", "BaseBoom"))
@@ -1241,6 +1288,13 @@ def corpus():
         "o5,y1,y2,c|0:a1 0:m0g0 0:n0 0:p 0:c0 0:p 0:x 0:p",
         "O5,u6,y1,r3,y2|0:a1 0:m0g0 0:n0 0:c0 0:p 0:x 0:p",
         # what must hold
+        "y1,y2,y3|0:a1 0:m0g0 0:k 0:n0 0:n0 0:n0 0:n0 0:x",                         # consumer caught a cancellation before
+        "y1,y2|0:a1 0:m0g0 0:n0 0:k 0:p 0:n0 0:n0 0:x 0:p",                         # ... or between items
+        "y1,n0,y2,n1,n2,n3,n4,y3|0:a1 0:m0g0 0:n0 0:n0 0:n0 0:n0 0:n0 0:n0 0:n0 0:n0 0:n0 0:x",   # falsy items are items
+        "n0,f|0:m0g0 0:n0 0:n0 0:n0",                                                # None, then the exception
+        "R5,y1,r6,y2|0:a1 0:m0g0 0:x 0:a2 0:n0 0:n0 0:n0 0:x",                      # factory records at call time: stream's scope
+        "X,y1|0:a1 0:m0g0 0:n0 0:n0 0:x",                                            # factory raises at call time: scope still ends
+        "y1,s1,y3;R4,n0,y2|0:a1 0:m0g0 0:n0 0:n0 0:n0 0:n0 0:n0 0:x",              # nested factory source
         "y1,y2,y3|0:a1 0:m0g0 0:n0 0:n0 0:n0 0:n0 0:n0 0:x",                        # items, end, stop again
         "y1,f,y2|0:a1 0:m0g0 0:n0 0:n0 0:n0 0:x",                                    # exception ends the stream
         "y1,F|0:m0g0 0:n0 0:n0 0:n0",                                                # BaseException
